@@ -497,8 +497,18 @@ func (P *Program) genVC(con *Contract) (*FuncResult, *VC) {
 	for i, fv := range fn.FreeVars {
 		f.vals[fv] = fvs[i]
 	}
-	f.entry = st.clone()
 	f.cur = st
+	for _, a := range args {
+		if v, ok := a.(Val); ok {
+			f.assumeAlive(st, v)
+		}
+	}
+	for _, a := range fvs {
+		if v, ok := a.(Val); ok {
+			f.assumeAlive(st, v)
+		}
+	}
+	f.entry = st.clone()
 	f.curReach = "true"
 	// requires
 	env := f.ownEnv(st, st, nil, nil)
